@@ -120,6 +120,20 @@ def all_proofs():
           mutants=[('backslash_guard_preproc_only', r'if \(  \(chunk.GetStr\(\).size\(\) > 1\)', 'if (  cpd.in_preproc != CT_NONE && (chunk.GetStr().size() > 1)', 'postcondition|loop_invariant'),
                    ('strips_ignored', r'if \(chunk.GetType\(\) != CT_IGNORED\)', 'if (true)', 'postcondition'),
                    ('keeps_tabs', r"\|\| \(chunk.GetStr\(\)\[chunk.GetStr\(\).size\(\) - 1\] == '\\t'\)\)\)", '))', 'postcondition')]),
+        P('parse_cr_string', enforce='parse_cr_string/parse_cr_string_contract', defines=['CR_STRING'], canaries=2, timeout=900,
+          replace=[CNTC, 'tag_compare/tag_compare_env_contract', 'parse_suffix/parse_suffix_contract'],
+          loops=[dict(fn='parse_cr_string', id=0, vars=['ctx', 'cnt', 'q_idx'], assigns='cnt, ' + _cur, decreases='cnt',
+                      inv=_pos + ' && cnt >= 0 && cnt <= (int)q_idx + 1 && TC_idx(ctx) == %s + (q_idx + 1 - (unsigned long)cnt)' % E('TC_idx(ctx)')),
+                 dict(fn='parse_cr_string', id=1, vars=['ctx', 'tag_len', 'tag_idx'], assigns='tag_len, ' + _cur, decreases='TC_size(ctx) - TC_idx(ctx)',
+                      inv=_pos + ' && TC_idx(ctx) == tag_idx + tag_len'),
+                 dict(fn='parse_cr_string', id=2, vars=['ctx', 'pc', 'cnt', 'tag_len', 'tag_idx'], assigns='cnt, Chunk_m_type(pc), Chunk_m_nlCount(pc), ' + _cur, decreases='TC_size(ctx) - TC_idx(ctx)',
+                      inv=_pos + ' && TC_idx(ctx) >= tag_idx + tag_len && tag_len < TC_size(ctx) && Chunk_m_nlCount(pc) <= %s + (TC_idx(ctx) - %s) && (Chunk_m_type(pc) == CT_STRING_V || Chunk_m_type(pc) == CT_STRING_MULTI_V)' % (E('Chunk_m_nlCount(pc)'), E('TC_idx(ctx)'))),
+                 dict(fn='parse_cr_string', id=3, vars=['ctx', 'cnt'], assigns='cnt, ' + _cur, decreases='cnt',
+                      inv=_pos + ' && cnt >= 0')],
+          functions=['tokenize.cpp:parse_cr_string'], expect=['parse_cr_string_contract.postcondition', 'loop_decreases', 'tag_compare_env_contract.precondition'],
+          assumed=['parse_suffix: only moves the cursor forward inside the data', 'UncText::append(int): what is collected into the chunk text is not tracked in this proof'],
+          mutants=[('delimiter_scan_without_end_test', r'while \(  ctx\.more\(\)\n         && \(ctx\.peek\(\) != \'\(\'\)\)', "while (ctx.peek() != '(')", 'loop_decreases|loop_invariant|postcondition'),
+                   ('no_restore_on_unterminated', r'\n   ctx\.restore\(\);\n   return\(false\);', '\n   return(false);', 'postcondition')]),
         Proof('tag_compare', impl='contracts/shared/crstring.impl.cpp', spec='contracts/shared/crstring.spec.c', harness='h_tag_compare', enforce='tag_compare/tag_compare_contract', canaries=2, rules={},
               loops=[dict(fn='tag_compare', id=0, vars=['a_idx', 'b_idx', 'len', 'd'], assigns='a_idx, b_idx, len',
                           inv='len <= %s && a_idx == %s + (%s - len) && b_idx == %s + (%s - len) && (g_tc_K < %s - len ==> DI_data(d)[%s + g_tc_K] == DI_data(d)[%s + g_tc_K])' % (E('len'), E('a_idx'), E('len'), E('b_idx'), E('len'), E('len'), E('a_idx'), E('b_idx')),
